@@ -126,8 +126,15 @@ def _spec(na, gs=U, rs=U, rp=U, axis=1):
 
 
 def catalogue(name):
-    """name: 'q' (1 axis of 6 cells, objects 2,3), 't' (2 axes 6x4, cross-axis size constraints), 'neg' (4 objects, tiny)"""
+    """name: 'q' (1 axis of 6 cells, objects 2,3), 't' (2 axes 6x4, cross-axis size constraints), 'neg' (4 objects, tiny),
+    'neg2' (static position + position constraint + size constraint, tiny)"""
     n1 = 6
+    if name == "neg2":
+        full = catalogue("q")
+        cat = [dict(full["cat"][i]) for i in (7, 27, 0, 10)]
+        for i, c in enumerate(cat, start=1):
+            c["id"] = i
+        return {"ed": full["ed"], "vol": full["vol"], "specs": [[full["specs"][0][4]], [full["specs"][1][2]]], "cat": cat}
     if name == "neg":
         ed = [[4 * i - 2 * n1 for i in range(n1 + 1)]]
         specs = [[_spec(1, gs=2)], [_spec(1, gs=2)], [_spec(1, gs=2)]]
@@ -217,7 +224,7 @@ def write_catalogues(spec_dir):
     import json
     import os
 
-    for name in ("q", "t", "neg"):
+    for name in ("q", "t", "neg", "neg2"):
         with open(os.path.join(spec_dir, "Place_catalogue_%s.json" % name), "w") as f:
             json.dump(catalogue(name), f, separators=(",", ":"))
 
@@ -300,10 +307,10 @@ def gen_cases(ctx, want):
     cat = catalogue("q")
     out = []
     nperm = 4 if ctx.quick else 6
-    keep2 = 0.05 if ctx.quick else 1.0
+    keep2 = 0.03 if ctx.quick else 1.0
     for sid, s in enumerate_systems(cat, 2):
         k = len(s["cons"])
-        if k == 2 and rng.random() > keep2:
+        if (k == 2 and rng.random() > keep2) or (ctx.quick and k == 1 and rng.random() > 0.5):
             continue
         out.append(("q-" + sid, s))
     if not ctx.quick:
@@ -311,14 +318,14 @@ def gen_cases(ctx, want):
         for sid, s in enumerate_systems(catt, 2):
             if len(s["cons"]) < 2 or rng.random() < 0.15:
                 out.append(("t-" + sid, s))
-    n3 = 250 if ctx.quick else 3000
+    n3 = 150 if ctx.quick else 3000
     idx = list(range(len(cat["cat"])))
     for i in range(n3):
         choice = [rng.randrange(len(sp)) for sp in cat["specs"]]
         cs = sorted(rng.sample(idx, 3))
         out.append(("q3-%d" % i, {"ed": cat["ed"], "objs": [cat["vol"]] + [cat["specs"][j][c] for j, c in enumerate(choice)], "cons": [cat["cat"][j] for j in cs]}))
     out += regression_systems()
-    for i in range(150 if ctx.quick else 2000):
+    for i in range(120 if ctx.quick else 2000):
         out.append(("rnd-%d" % i, random_system(rng)))
     ctx.exhaustive = False
     cases = []
@@ -358,7 +365,7 @@ def classify(record, verdict):
 
 def model_check(ctx):
     if ctx.quick:
-        ctx.mc("Place", "MC_Place_q.cfg", label="all systems volume(6 cells)+2 objects, <=2 constraints of 38, 9 static-spec combinations: scheduled run + all per-iteration constraint orders")
+        ctx.mc("Place", "MC_Place_q.cfg", label="all systems volume(6 cells)+2 objects, <=2 constraints of 38, 4 static-spec combinations: scheduled run + all per-iteration constraint orders")
     else:
         ctx.mc("Place", "MC_Place_t.cfg", label="1 axis, all 15 static-spec combinations, <=2 constraints of 38")
         ctx.mc("Place", "MC_Place_t2.cfg", label="2 axes 6x4 incl. cross-axis size and 2-axis constraints, <=2 constraints of 59")
